@@ -23,6 +23,7 @@ import (
 
 func init() {
 	families["c03-canon"] = c03Canon
+	families["c03-limits"] = c03Limits
 	families["c04-vectors"] = c04Vectors
 }
 
@@ -111,7 +112,7 @@ func canonGen(r *hx.Rand) ([]rdf.Quad, string) {
 		qs = append(qs, rdf.Quad{Triple: rdf.Triple{Subject: s, Predicate: p(pi), Object: o}, GraphName: g})
 	}
 	shape := hx.Pick(r, []string{"cycle", "clique", "copies", "star", "path", "random", "random", "selfref", "graphs", "two-cycles", "literal-mix", "grid",
-		"big-cycle", "overlap", "dense", "bn-graphs", "rot3", "graph-pairs"})
+		"big-cycle", "overlap", "dense", "bn-graphs", "rot3", "graph-pairs", "random-copies", "random-copies"})
 	switch shape {
 	case "cycle":
 		n := 2 + r.Intn(6)
@@ -186,6 +187,27 @@ func canonGen(r *hx.Rand) ([]rdf.Quad, string) {
 				if i != j {
 					add(b[i], 0, b[j], nil)
 				}
+			}
+		}
+	case "random-copies": // an irregular sparse digraph, twice: every first-degree hash ties, the N-degree paths are long and branch
+		n := 5 + r.Intn(5)
+		type edge struct{ a, b, p int }
+		var es []edge
+		for i := 1; i < n; i++ { // connected
+			j := r.Intn(i)
+			if r.Bool() {
+				es = append(es, edge{i, j, 0})
+			} else {
+				es = append(es, edge{j, i, 0})
+			}
+		}
+		for x := r.Intn(n); x > 0; x-- {
+			es = append(es, edge{r.Intn(n), r.Intn(n), r.Intn(8) / 7})
+		}
+		for c := 0; c < 2; c++ {
+			b := bn(n)
+			for _, e := range es {
+				add(b[e.a], e.p, b[e.b], nil)
 			}
 		}
 	case "copies":
@@ -648,4 +670,51 @@ func canonRefQuads(qs []rdf.Quad) ([]refQuad, bool) {
 		out = append(out, r)
 	}
 	return out, twice
+}
+
+// c03Limits: datasets beyond the documented work limits (recursion depth 512): an error, never an answer that differs
+// between isomorphic copies. Two chains of L blank nodes which differ only at their far ends.
+func c03Limits(r *hx.Rand, n int, out *hx.Out, _ []string) {
+	for c := 0; c < n; c++ {
+		rr := r.Fork()
+		L := 530 + rr.Intn(150)
+		f := rdf.NewBlankNodeFactory()
+		var qs []rdf.Quad
+		for ch, end := range []string{"http://e/X", "http://e/Y"} {
+			_ = ch
+			prev := f.NewBlankNode()
+			for i := 1; i < L; i++ {
+				next := f.NewBlankNode()
+				qs = append(qs, rdf.Quad{Triple: rdf.Triple{Subject: prev, Predicate: rdf.IRI("http://e/p0"), Object: next}})
+				prev = next
+			}
+			qs = append(qs, rdf.Quad{Triple: rdf.Triple{Subject: prev, Predicate: rdf.IRI("http://e/p1"), Object: rdf.IRI(end)}})
+		}
+		render := func(o canonOut) string {
+			switch {
+			case strings.Contains(o.err, "recursion depth"):
+				return "!depth"
+			case strings.Contains(o.err, "maximum iterations"):
+				return "!perm"
+			case o.err != "":
+				return "!error " + o.err
+			}
+			return hx.X(string(o.bytes))
+		}
+		base := canonRun(qs, fnvHash)
+		oracle := ""
+		if base.err == "" {
+			// an answer beyond the limit: it must at least be the same for isomorphic copies
+			for v := 0; v < 2 && oracle == ""; v++ {
+				vo := canonRun(canonVariant(rr, qs), fnvHash)
+				if vo.err != "" || !bytes.Equal(vo.bytes, base.bytes) {
+					oracle = fmt.Sprintf("beyond the recursion limit the implementation answers, and differently for an isomorphic copy (%d-node chains)", L)
+				}
+			}
+		} else if render(base) != "!depth" {
+			oracle = "unexpected failure: " + base.err
+		}
+		out.Emit(hx.Case{Kind: "K/C03/limits", Impl: render(base), Line: canonLine(qs), Class: fmt.Sprintf("two chains of %d..%d", L/50*50, L/50*50+49), NonTri: true, Oracle: oracle,
+			Desc: fmt.Sprintf("two chains of %d blank nodes, same predicate, ends tagged X and Y", L)})
+	}
 }
